@@ -5,8 +5,11 @@
    which that statement is an explicit `abort`: every unrelated (witness) flow must produce exactly
    the same outputs for the same and for later events, nothing escapes the API, and a ColangError
    event is produced.
+   (c) the event-processing API itself (RuntimeV2_x.process_events feeds the events a program sends back to it)
+   returns for every program, also for one that keeps answering its own events: within the event budget.
    TRACE_FILE: [bounds |-> <<[elements, flows, instances, steps]...>>,
-                faults |-> <<[escaped, fault_out, abort_out, errors]...>>]
+                faults |-> <<[escaped, fault_out, abort_out, errors]...>>,
+                api    |-> <<[returned, calls]...>>]      calls = run_to_completion calls made by one process_events call
    fault_out / abort_out: per event, the sequence of witness outputs (strings).                  *)
 EXTENDS Sequences, Naturals, TLC, Json, IOUtils
 
@@ -16,14 +19,19 @@ StepBound(elements, instances) == 40 + 6 * elements + 4 * elements * instances
 
 Data == JsonDeserialize(IOEnv.TRACE_FILE)
 NB == Len(Data.bounds)
+NF == Len(Data.faults)
+ApiBudget == 2000          \* run_to_completion calls of one process_events call (the runtime's own budget is 500 events per call)
 VARIABLE k
-Init == k \in 1..(NB + Len(Data.faults))
+Init == k \in 1..(NB + NF + Len(Data.api))
 Spec == Init /\ [][UNCHANGED k]_k
 Verdict ==
   IF k <= NB
   THEN LET c == Data.bounds[k] IN
        PrintT(ToJson([k |-> k, kind |-> "bound", ok |-> c.steps <= StepBound(c.elements, c.instances),
                       bound |-> StepBound(c.elements, c.instances)]))
+  ELSE IF k > NB + NF
+  THEN LET c == Data.api[k - NB - NF] IN
+       PrintT(ToJson([k |-> k, kind |-> "api", ok |-> (c.returned /\ c.calls <= ApiBudget)]))
   ELSE LET c == Data.faults[k - NB] IN
        PrintT(ToJson([k |-> k, kind |-> "fault",
                       noescape |-> ~c.escaped,
